@@ -907,6 +907,22 @@ def run_url(case, idx):
 # after every operation, with every object still referenced (nothing dropped, nothing collected).
 
 
+def settle(url):
+    """URL sources: the local HTTP server's handler thread closes its side of a connection a little
+    after the client is done; wait until this process's descriptor count has stopped moving."""
+    gc.collect()
+    if not url:
+        return
+    last, same = fd_count(), 0
+    for _ in range(100):
+        time.sleep(0.01)
+        now = fd_count()
+        same = same + 1 if now == last else 0
+        last = now
+        if same >= 3:
+            break
+
+
 def corder_once(case, idx):
     cls = setup_style(case["style"], case.get("term"))
     tdir = common._TEMP_DIR
@@ -915,7 +931,7 @@ def corder_once(case, idx):
         root, port = ensure_server()
     else:
         path = source_path(case["src"], idx)
-    gc.collect()
+    settle(url)
     fd0 = fd_count()
     t0 = len(os.listdir(tdir))
     keep = None
@@ -926,7 +942,7 @@ def corder_once(case, idx):
     else:
         image, keep = construct(cls, case["source"], path, case.get("size"))
     N = image.n_frames
-    gc.collect()
+    settle(url)
     fd1 = fd_count() - own_fd(keep)
     its, rows = [], []
     odd = None
@@ -977,7 +993,7 @@ def corder_once(case, idx):
     if keep is not None:
         keep.close()
     keep = None
-    gc.collect()
+    settle(url)
     return {"N": N, "rows": rows, "fd_end": fd_count() - fd0, "tmp_end": len(os.listdir(tdir)) - t0, "odd": odd}
 
 
